@@ -20,6 +20,10 @@ pub struct WScenario {
     program: Program,
     raw: Vec<(u16, Option<String>)>,
     by_drop: bool,
+    /// the caller issues every call of an operation whatever the earlier ones returned (write after a failed
+    /// start_file, end_extra_data after a failed write, ...) and calls flush() after each operation
+    #[serde(default)]
+    persistent: bool,
 }
 
 /// logical content of an archive: entries as the crate's reader and the independent parser see them
@@ -66,7 +70,19 @@ fn run_writer(s: &WScenario, fail_at: usize, mode: (bool, u8), record: bool) -> 
     };
     let mut w = std::mem::ManuallyDrop::new(w);
     for (i, op) in s.program.ops.iter().enumerate() {
-        match catch(|| gen::apply(&mut w, op)) {
+        let r = if s.persistent {
+            catch(|| {
+                let mut errs: Vec<String> = Vec::new();
+                gen::apply_persistent(&mut w, op, &mut |e| errs.push(e));
+                match errs.into_iter().next() {
+                    Some(e) => Err(e),
+                    None => Ok(()),
+                }
+            })
+        } else {
+            catch(|| gen::apply(&mut w, op))
+        };
+        match r {
             Ok(Ok(())) => {}
             Ok(Err(e)) => note(&mut first_err, e),
             Err(p) => return Err(format!("PANIC in writer call #{i} ({}) with a fault injected at I/O call {fail_at} (sticky={sticky}; earlier error: {first_err:?}): {p}", op_name(op))),
@@ -319,7 +335,7 @@ fn sweep_big_open(n_entries: u32, kmax: usize, append: bool) -> Result<(), Strin
 }
 
 pub fn run(ctx: &mut Ctx) {
-    ctx.rule("each scenario is first run failure-free under a counting stream (n I/O calls), then re-run with a hard error injected at EVERY call index k<n, as a one-shot and as a sticky failure of kind Other, and with the kinds UnexpectedEof (one-shot, sticky) and Interrupted (one-shot: std's own retry loops swallow it, then the result must be the failure-free one); after the first error the scenario keeps issuing its remaining calls, then finish(), a second finish() and drop. readers: open + read every entry (seekable; streaming fully consumed; archives with encrypted entries a second time with a caller that reads 5 bytes at a time and calls read() again after an error) of the seed archives (plain, ZIP64, ZipCrypto, AES) and generated archives. writers: generated programs over all entry kinds, methods, extra data, aligned, ZipCrypto, optional append base and raw copies, completed by finish or drop. big_open: archives with > 65535 entries, a fault at every one of the first K I/O calls (quick 48, thorough 200) of ZipArchive::new and of new_append (+1 entry, finish). Oracle: no panic/abort anywhere; if no call returned an error the logical result (entries, content, comment as seen by the crate reader and the independent parser) equals the failure-free result. Non-trivial = the failure-free run performs >=1 I/O call. evaluations counts scenarios; coverage.fault_runs counts injected-fault executions.");
+    ctx.rule("each scenario is first run failure-free under a counting stream (n I/O calls), then re-run with a hard error injected at EVERY call index k<n, as a one-shot and as a sticky failure of kind Other, and with the kinds UnexpectedEof (one-shot, sticky) and Interrupted (one-shot: std's own retry loops swallow it, then the result must be the failure-free one); after the first error the scenario keeps issuing its remaining calls, then finish(), a second finish() and drop. readers: open + read every entry (seekable; streaming fully consumed; archives with encrypted entries a second time with a caller that reads 5 bytes at a time and calls read() again after an error) of the seed archives (plain, ZIP64, ZipCrypto, AES) and generated archives. writers: generated programs over all entry kinds, methods, extra data, aligned, ZipCrypto, optional append base and raw copies, completed by finish or drop; half of them with a caller that issues EVERY call of an operation whatever the earlier ones returned (write after a refused start_file, end_extra_data after a failed write) and calls flush() after each operation. writers_methods: every method x every kind of following operation, the same two callers. big_open: archives with > 65535 entries, a fault at every one of the first K I/O calls (quick 48, thorough 200) of ZipArchive::new and of new_append (+1 entry, finish). Oracle: no panic/abort anywhere; if no call returned an error the logical result (entries, content, comment as seen by the crate reader and the independent parser) equals the failure-free result. Non-trivial = the failure-free run performs >=1 I/O call. evaluations counts scenarios; coverage.fault_runs counts injected-fault executions.");
     ctx.assume("streaming entries are read to the end, so the failure lands in a Result-returning call (the documented panic in the streaming ZipFile's drop-time drain is outside the property's wording)");
     ctx.assume("completion by drop swallows errors by design; for drop scenarios only the no-panic clause is checked");
     let seeds = seeds::small_seeds();
@@ -376,6 +392,37 @@ pub fn run(ctx: &mut Ctx) {
         info.label(if b.append { "new_append" } else { "ZipArchive::new" });
         Verdict::from_result(sweep_big_open(b.entries, kmax, b.append))
     });
+    // every method followed by every kind of operation, issued by a caller that carries on after errors:
+    // makes sure each compressor's closing path meets a fault with a write()/flush() right behind it
+    {
+        use crate::refzip::Content;
+        let methods = [gen::Method::Bzip2, gen::Method::Zstd, gen::Method::Stored, gen::Method::Deflated];
+        let total = (methods.len() * 4 * 2) as u64;
+        ctx.enumerate::<WScenario>(
+            "writers_methods",
+            total,
+            &|i| {
+                let i = i as usize;
+                let m = methods[i % 4];
+                let first = Op::File { name: "first".into(), opts: gen::Opts::plain(m), chunks: vec![Content::Text { seed: 11, len: 2500 }, Content::Rand { seed: 12, len: 300 }] };
+                let o2 = gen::Opts::plain(methods[(i / 16 + 2) % 4]);
+                let second = match (i / 4) % 4 {
+                    0 => Op::File { name: "second".into(), opts: o2, chunks: vec![Content::Text { seed: 13, len: 400 }] },
+                    1 => Op::Dir { name: "dir".into(), opts: gen::Opts::plain(gen::Method::Stored) },
+                    2 => Op::ExtraFile { name: "second-x".into(), opts: o2, local: vec![crate::refzip::Extra { id: 0xcafe, data: vec![1, 2, 3] }], central: Some(vec![crate::refzip::Extra { id: 0xbeef, data: vec![4] }]), chunks: vec![Content::Text { seed: 14, len: 300 }] },
+                    _ => Op::Aligned { name: "second-a".into(), opts: o2, align: 64, chunks: vec![Content::Text { seed: 15, len: 300 }] },
+                };
+                WScenario { base: None, program: Program { ops: vec![first, second] }, raw: vec![], by_drop: false, persistent: (i / 16) % 2 == 0 }
+            },
+            &|s: &WScenario, info: &mut Info| {
+                if let Some(Op::File { opts, .. }) = s.program.ops.first() {
+                    info.label(["first entry Stored", "first entry Deflated", "first entry Bzip2", "first entry Zstd"][match opts.method { gen::Method::Stored => 0, gen::Method::Deflated => 1, gen::Method::Bzip2 => 2, gen::Method::Zstd => 3 }]);
+                }
+                info.label_if(s.persistent, "caller carries on inside an operation + flush()");
+                Verdict::from_result(sweep_writer(s, info))
+            },
+        );
+    }
     let nw = ctx.q(60, 2000);
     ctx.explore::<WScenario>(
         "writers",
@@ -386,14 +433,16 @@ pub fn run(ctx: &mut Ctx) {
                 gen::program(5, 3000, true, true),
                 proptest::collection::vec((any::<u16>(), prop_oneof![Just(None), "[a-z]{1,6}".prop_map(Some)]), 0..3),
                 prop_oneof![3 => Just(false), 1 => Just(true)],
+                any::<bool>(),
             )
-                .prop_map(|(base, program, raw, by_drop)| WScenario { base: base.map(gen::tame), program: gen::tame(program), raw, by_drop })
+                .prop_map(|(base, program, raw, by_drop, persistent)| WScenario { base: base.map(gen::tame), program: gen::tame(program), raw, by_drop, persistent })
                 .boxed()
         },
         &|s: &WScenario, info: &mut Info| {
             info.label_if(s.base.is_some(), "append");
             info.label_if(!s.raw.is_empty(), "raw-copy");
             info.label_if(s.by_drop, "complete-by-drop");
+            info.label_if(s.persistent, "caller carries on inside an operation + flush()");
             info.label_if(s.program.ops.iter().any(|o| matches!(o, Op::ExtraFile { .. } | Op::Aligned { .. })), "extra/aligned");
             info.label_if(gen::model(&s.program).0.iter().any(|m| m.password.is_some()), "zipcrypto");
             Verdict::from_result(sweep_writer(s, info))
